@@ -149,6 +149,42 @@ int main() {
     EXPECT(got == exp);
     if (!(got == exp)) printf(" got %s\n", to_string(got).c_str());
   }
+  // ---- general cells: a cubical sphere (boundary of a cube: 8 vertices, 12 edges, 6 squares) filled by the cube, emptied again
+  {
+    Keyed k;
+    // vertices 0..7 = (x,y,z) bits; keys are arrow numbers
+    for (int v = 0; v < 8; ++v) k.ins({}, 0);
+    std::map<std::pair<int, int>, int> edge;
+    for (int v = 0; v < 8; ++v)
+      for (int a = 0; a < 3; ++a)
+        if (!(v >> a & 1)) {
+          edge[{v, v | (1 << a)}] = int(k.h.arrows.size());
+          k.ins({v, v | (1 << a)}, 1);
+        }
+    // squares: fix one coordinate a to value s, vary the two others b,c
+    for (int a = 0; a < 3; ++a)
+      for (int s = 0; s < 2; ++s) {
+        int b = (a + 1) % 3, c = (a + 2) % 3, o = s << a;
+        int v00 = o, v10 = o | (1 << b), v01 = o | (1 << c), v11 = o | (1 << b) | (1 << c);
+        k.ins({edge.at({v00, v10}), edge.at({v00, v01}), edge.at({v10, v11}), edge.at({v01, v11})}, 2);
+      }
+    int first_square = 20, cube = 26;
+    k.ins({20, 21, 22, 23, 24, 25}, 3);
+    k.rem(cube);
+    k.rem(first_square);
+    auto bars = barcode_checked(k.h);
+    std::vector<Interval> h2, h1_open;
+    for (auto& x : bars) {
+      if (x.dim == 2) h2.push_back(x);
+      if (x.dim == 1 && x.death < 0) h1_open.push_back(x);
+    }
+    // the sphere closes at arrow 25 (last square), is filled at 26, reappears at 27 and is opened at 28
+    EXPECT((h2 == std::vector<Interval>{{2, 25, 26}, {2, 27, 28}}));
+    EXPECT(h1_open.empty());
+    int h0_open = 0;
+    for (auto& x : bars) h0_open += (x.dim == 0 && x.death < 0);
+    EXPECT(h0_open == 1);
+  }
   // ---- identity arrows only shift indices
   {
     Keyed k;
